@@ -25,12 +25,12 @@ var c06Engines = []string{"memkv", "badger", "tikv", "memkv"}
 func init() {
 	Registry["C06"] = &Prop{
 		Plan: func(tier string) Plan {
-			return Plan{Level: "exploration", NCases: pick(tier, 240, 4000), Batch: 3, CaseTimeout: 180,
+			return Plan{Level: "exploration", NCases: pick(tier, 240, 40000), Batch: 3, CaseTimeout: 180,
 				Rule: "one case = 2-4 writers (create/update/delete with Get-refreshed and stale expectations => successes and failures), one compactor issuing Compact(committed-lag), and 2-4 observers each looping {List(P,0)->(R,kvs); Watch(P,R+1); pause; List(P,0)->(R',kvs'); sentinel write; wait for the sentinel's event}, event-cache size 64 or default, engines memkv/Badger/TiKV mock. " +
 					"oracle = apply(kvs, delivered events with revision <= R') == kvs' exactly (key -> value, mod revision); refused/closed watches restart the loop. " +
 					"non-trivial = observer loop in which >=1 event was applied between R and R' while >=1 compaction ran and >=1 write failed; distinct by (engine, cache, per-loop applied-event counts)",
 				Assumptions: []string{"R and R' are response headers; the sentinel's event (revision > R') arriving proves that every event <= R' has arrived, because events are delivered in revision order (C05)"},
-				MinConcl:    pick(tier, 180, 3000)}
+				MinConcl:    pick(tier, 180, 30000)}
 		},
 		Name: func(c *harness.Case) string { return "ltw-" + c06Engines[c.Index%len(c06Engines)] },
 		Run:  runC06,
